@@ -1,6 +1,7 @@
 import ZkElGamal.Proofs.RangeLemmas
 import ZkElGamal.Proofs.Batch
 import ZkElGamal.Proofs.IppExtract
+import ZkElGamal.Proofs.RangeExtract
 /-!
 # C04 — batched range proofs accept only in-range commitments in well-formed contexts
 
@@ -311,6 +312,47 @@ theorem ipp_special_sound [DecidableEq F] (Q : G) (k : ℕ) (g h : IppExtract.Id
     (hi : IppExtract.Indep (F := F) g h Q) (ht : IppExtract.AccTree (F := F) Q k g h P) :
     ∃ a b : IppExtract.Idx k → F, P = (∑ j, a j • g j) + (∑ j, b j • h j) + (∑ j, a j * b j) • Q :=
   IppExtract.ipp_tree_extract Q k g h P hi ht
+
+/-- **last step of the extractor** (field algebra): the constant coefficient of `⟨l(X), r(X)⟩` computed from
+    the opening `(a_L, a_R)` of `A` equals `δ(y,z) + Σ_j z^{2+j}·v_j` for `N` distinct `y` and `m+2` distinct `z`
+    only if `a_L` is a bit vector, `a_R = a_L − 1` and every `v_j` is the weighted sum of the bits of its block -/
+theorem bits_of_identity {N m : ℕ} (hN : 0 < N) (blk : Fin N → Fin m) (pw aL aR : Fin N → F) (v : Fin m → F)
+    (Y : Fin N → F) (hY : Function.Injective Y) (Z : Fin (m + 2) → F) (hZ : Function.Injective Z)
+    (hid : ∀ p q,
+      ∑ i, (aL i - Z q) * (Y p ^ (i : ℕ) * (aR i + Z q) + Z q ^ 2 * Z q ^ (blk i : ℕ) * pw i)
+        = (Z q - Z q ^ 2) * ∑ i : Fin N, Y p ^ (i : ℕ) - ∑ i, Z q ^ (3 + (blk i : ℕ)) * pw i
+          + ∑ j : Fin m, Z q ^ (2 + (j : ℕ)) * v j) :
+    (∀ i, aL i * aR i = 0 ∧ aL i - aR i = 1) ∧ ∀ j, v j = ∑ i with blk i = j, aL i * pw i :=
+  RangeExtract.bits_of_identity hN blk pw aL aR v Y hY Z hZ hid
+
+/-- **special soundness of the aggregated range proof** (third extractor step). Over independent generators
+    (`RangeExtract.GIndep`: no non-trivial linear relation among `g_i, h_i, B, H̃` — for the real generators the
+    discrete-log assumption), a grid of accepting transcripts — `N` distinct non-zero `y`, `m+2` distinct
+    non-zero `z`, three distinct `x`, two distinct `w`; `A, S, V_j` fixed, `T₁, T₂` per `(y,z)`, `t̂, τ, e` per
+    `(y,z,x)`; `hpoly` is `Epoly = 0` (see `Epoly_eq_zero_iff`), `hipp` is the relation `Eipp = 0` with the
+    inner-product argument replaced by its opening `(l, r)` (what `ipp_special_sound` extracts) — forces
+    `V_j = v_j•B + γ_j•H̃` with `v_j = Σ_{i ∈ block j} bit_i·pw_i`, `bit_i ∈ {0,1}`: every committed value lies
+    in its range. Not proved: the forking lemma producing such a grid from a successful prover (ROM), and
+    the list-level rewriting of `Eipp = 0` into the inner-product acceptance relation over folded generators. -/
+theorem range_special_sound {N m : ℕ} (hN : 0 < N) (g h : Fin N → G) (B Ht : G)
+    (hind : RangeExtract.GIndep F g h B Ht)
+    (blk : Fin N → Fin m) (pw : Fin N → F) (A S : G) (V : Fin m → G)
+    (Y : Fin N → F) (hY : Function.Injective Y) (hY0 : ∀ p, Y p ≠ 0)
+    (Z : Fin (m + 2) → F) (hZ : Function.Injective Z) (hZ0 : ∀ q, Z q ≠ 0)
+    (X : Fin 3 → F) (hX : Function.Injective X) (W : Fin 2 → F) (hW : Function.Injective W)
+    (T1 T2 : Fin N → Fin (m + 2) → G) (th τ e : Fin N → Fin (m + 2) → Fin 3 → F)
+    (l r : Fin N → Fin (m + 2) → Fin 3 → Fin 2 → Fin N → F)
+    (hpoly : ∀ p q k, th p q k • B + τ p q k • Ht
+      = (RangeExtract.dl blk pw (Y p) (Z q) • B + ∑ j : Fin m, Z q ^ (2 + (j : ℕ)) • V j)
+        + X k • T1 p q + (X k * X k) • T2 p q)
+    (hipp : ∀ p q k ω, A + X k • S - e p q k • Ht + (W ω * th p q k) • B - ∑ i : Fin N, Z q • g i
+        + ∑ i : Fin N, (Z q + (Y p ^ (i : ℕ))⁻¹ * (Z q ^ 2 * Z q ^ (blk i : ℕ) * pw i)) • h i
+      = (∑ i : Fin N, l p q k ω i • g i) + (∑ i : Fin N, (r p q k ω i * (Y p ^ (i : ℕ))⁻¹) • h i)
+        + (W ω * ∑ i : Fin N, l p q k ω i * r p q k ω i) • B) :
+    ∃ (v γ : Fin m → F) (bit : Fin N → F), (∀ j, V j = v j • B + γ j • Ht) ∧ (∀ i, bit i = 0 ∨ bit i = 1)
+      ∧ ∀ j, v j = ∑ i with blk i = j, bit i * pw i :=
+  RangeExtract.range_special_sound hN g h B Ht hind blk pw A S V Y hY hY0 Z hZ hZ0 X hX W hW T1 T2 th τ e l r
+    hpoly hipp
 
 /-! ## lengths (no size-hint assertion of the multiscalar multiplication can fire) -/
 
